@@ -379,6 +379,8 @@ func (r *runner) run(ctx context.Context, isStream bool, input any, opts ...Opti
 			return nil, newGraphRunError(fmt.Errorf("failed to calculate next tasks: %w", err))
 		}
 		if reachedEnd {
+			// eager execution: nodes that do not feed END may still be running
+			tm.discardRest()
 			return result, nil
 		}
 
